@@ -478,3 +478,47 @@ package utreexo
 //@   lock: R
 //@ func (m *MapPollard) getLeafHashPosition(hash Hash) (pos uint64, found bool)
 //@   lock: R
+
+// ---------------------------------------------------------------------------
+// Sorted-slice helpers (C14, C07, C08, C01): safety, termination and length posts.
+// ---------------------------------------------------------------------------
+
+//@ func subtractSortedSlice(a []E, b []F, cmp func(E, F) int) (res []E)
+//@   modifies a
+//@   ensures len(res) <= len(a)
+//@   loop 1: invariant 0 <= i && i <= len(a) && 0 <= bIdx && bIdx <= len(b) && len(a) <= old(len(a))
+//@   loop 1: decreases (len(a) - i) + (len(b) - bIdx)
+
+//@ func subtractSortedHashAndPos(a hashAndPos, b []E, cmp func(uint64, E) int) (res hashAndPos)
+//@   requires len(a.positions) == len(a.hashes)
+//@   ensures len(res.positions) == len(res.hashes) && len(res.positions) <= len(a.positions)
+//@   loop 1: invariant 0 <= i && i <= len(a.positions) && 0 <= bIdx && bIdx <= len(b) && len(a.positions) == len(a.hashes) && len(a.positions) <= old(len(a.positions))
+//@   loop 1: decreases (len(a.positions) - i) + (len(b) - bIdx)
+
+//@ func getHashAndPosSubset(a hashAndPos, b []uint64) (res hashAndPos)
+//@   requires len(a.positions) == len(a.hashes)
+//@   ensures len(res.positions) == len(res.hashes)
+//@   loop 1: invariant 0 <= i && i <= len(a.positions) && 0 <= bIdx && bIdx <= len(b) && len(c.positions) == len(c.hashes)
+//@   loop 1: decreases (len(a.positions) - i) + (len(b) - bIdx)
+
+//@ func insertInOrder(dels []uint64, el uint64) (res []uint64)
+//@   modifies dels
+//@   ensures len(res) == len(dels) + 1
+
+//@ func deTwin(dels []uint64, forestRows uint8) (res []uint64)
+//@   modifies dels
+//@   ensures len(res) <= len(dels)
+//@   loop 1: invariant 0 <= i && i <= len(dels) && len(dels) <= old(len(dels))
+//@   loop 1: decreases 2*len(dels) - i
+
+//@ func maybeRemap(numLeaves uint64, numAdds uint64, hnp hashAndPos) (res hashAndPos)
+//@   ensures len(res.positions) == len(hnp.positions) && len(res.hashes) == len(hnp.hashes)
+
+//@ func pruneEdges(hnp hashAndPos, numAdds uint64, numLeaves uint64, forestRows uint8, prevForestRows uint8) (res hashAndPos, err error)
+//@   requires len(hnp.positions) == len(hnp.hashes)
+//@   ensures err == nil ==> len(res.positions) == len(res.hashes) && len(res.positions) <= len(hnp.positions)
+//@   loop 1: invariant len(prevTargetsWithHash.positions) == len(prevTargetsWithHash.hashes) && len(prevTargetsWithHash.positions) <= iter_1
+
+//@ func (hnp *hashAndPos) Delete(i int)
+//@   requires 0 <= i && i < len(hnp.positions) && len(hnp.positions) == len(hnp.hashes)
+//@   ensures len(hnp.positions) == old(len(hnp.positions)) - 1 && len(hnp.hashes) == old(len(hnp.hashes)) - 1
